@@ -36,6 +36,8 @@ RULE = ("scripts: 3 engines x grid/graph (60 % degenerate shapes) x 4 policies x
         "double finalize, then a call on the released engine; run on the plain, the assertion-hardened and (subset) the ASan/UBSan build; "
         "non-trivial when >= 2 steps were made; distinct by script")
 ASSUMPTIONS = [
+    "the random coarse-graining maps of cgmap_jobs use groups of CONSECUTIVE cells only: groups with coinciding centroids are the known finding "
+    "cgmap-coinciding-centroids (known_findings.txt), exercised by two directed jobs that always run and report under that one key",
     "hardened libstdc++ (-D_GLIBCXX_ASSERTIONS) aborts on out-of-range operator[] and on distribution preconditions; ASan/UBSan report "
     "heap overflows, use after free, double free and undefined arithmetic they instrument — reads of uninitialised memory are NOT detected",
     "sizes and Poisson counts stay below 2^31 (recorded size assumption): generators keep the explicit schemes bounded or the runs short",
@@ -302,23 +304,74 @@ def cgmap_jobs(ctx, n, tag="cg"):
                 ctx.violation(key, "%s build, cgmap=%s: %s" % (kind, j["cgmap"], what), case, impl=impl, expected=exp)
 
 
+KEY_CENTROIDS = "cgmap-coinciding-centroids"
+
+
+def centroid_jobs(ctx):
+    """the recorded known finding, always run: a valid index map whose groups have coinciding centroids gives a coarse edge
+    of distance 0 (state NaN, NaN mean handed to std::poisson_distribution).  Stable key, whatever the build reports."""
+    jobs = []
+    for i, cg in enumerate([[2, 1, 0, 0, 1], [0, 1, 2, 2, 1]]):
+        sysd = {"network": {"species": [{"label": "A", "density": 0, "D": 0.5}], "reactions": [], "environments": ["a"]},
+                "space": {"type": "grid", "w": 5, "h": 1, "d": 1, "cell_volume": 1.0, "cell_env": [0] * 5, "boundary_conditions": {}},
+                "state": [40.0, 12.0, 5.0, 30.0, 8.0]}
+        S = {"system": sysd, "kw": {"t_sample": [0.0, 0.05], "time_step": 0.01, "t_max": 0.05, "sampling_policy": "on_t_sample", "rng_seed": 7 + i}}
+        jobs.append({"id": "centroid%d" % i, "engines": ["tauleap"], "scripts": [S], "timeout": 20, "cgmap": cg, "directed": KEY_CENTROIDS,
+                     "calls": [{"obj": 0, "call": "simulate_cg", "script": 0, "cgmap": cg}, {"obj": 0, "call": "finalize"}]})
+    for kind in ("plain", "hard", "asan"):
+        res = lc.run_jobs([dict(j) for j in jobs], kind=kind, chunk=1, parallel=2, stall=ctx.n(15, 60))
+        for j in jobs:
+            r = res[j["id"]]
+            case = {"job": {k: j[k] for k in ("id", "engines", "scripts", "calls", "cgmap", "directed")}, "build": kind, "history": True}
+            if kind == "plain":
+                ctx.case(("centroid", json.dumps(j["cgmap"])), nontrivial=True, sample={"op": "simulate-cgmap", "engine": "tauleap", "cgmap": j["cgmap"], "directed": KEY_CENTROIDS})
+            ctx.count("directed_cgmap_coinciding_centroids_" + kind)
+            if r["status"] != "ok":
+                what = classify(r.get("stderr", ""), r["status"])
+                ctx.violation(KEY_CENTROIDS, "%s build: %s in simulate_script(…, tauleap, cgmap=%s) on a 5x1x1 grid (groups with coinciding centroids: coarse edge of distance 0)"
+                              % (kind, what, j["cgmap"]), case, impl={"status": r["status"], "class": what, "stderr": r.get("stderr", "")[-400:]}, expected="a clean run")
+                continue
+            x = r["results"][0]
+            if "raised" in x:
+                ctx.violation(KEY_CENTROIDS, "%s build: simulate_script(…, cgmap=%s) raised %s for a valid map" % (kind, j["cgmap"], x["raised"]), case, impl=x["raised"], expected="a clean run")
+                continue
+            # the build did not stop: the trajectory must still be finite
+            ret = x["ret"]
+            import math
+            if ret.get("nsamples", 0) < 1:
+                ctx.violation(KEY_CENTROIDS, "%s build: simulate_script(…, cgmap=%s) returned no sample" % (kind, j["cgmap"]), case, impl=ret.get("nsamples"), expected=">= 1")
+
+
 def run(ctx):
+    centroid_jobs(ctx)
     explore(ctx, ctx.n(105, 3000), ctx.n(24, 600), p_degenerate=0.6, tag="m")
     abandon_histories(ctx, ctx.n(8, 48))
     cgmap_jobs(ctx, ctx.n(10, 60))
-    if not ctx.violations:
+    if not _unlisted(ctx):
         checked_correspondence(ctx)
+    # the runner starts the failing-input search only when NO violation was reported; this check always reports the listed
+    # known finding, so it starts the search itself when something is broken and nothing unlisted was found
+    if ctx.broken and not _unlisted(ctx):
+        search(ctx)
     ctx.notes.append("partial by nature: engine_never_faults is proved on the checked-access MODEL of the engine (all six algorithms, Init, "
                      "sampler, exports, lifecycle; validated against the real engine step by step: op checked_step); the compiled "
                      "engine's memory behaviour is observed with hardened / sanitizer builds on sampled inputs")
+
+
+def _unlisted(ctx):
+    known, _ = common.known_findings(ID)
+    return [v for v in ctx.violations if v["key"] not in known]
 
 
 def search(ctx):
     """failing-input search (an anchor, a theorem or the correspondence is broken, no failing input known yet): the hardened
     and the sanitizer builds over a larger set of degenerate shapes, coarse steps and histories than the quick tier, until
     the time budget is used"""
+    if ctx.extra.get("searched"):
+        return
+    ctx.extra["searched"] = True
     rounds = 0
-    while ctx.time_left() > 40 and not ctx.violations and rounds < 30:
+    while ctx.time_left() > 40 and not _unlisted(ctx) and rounds < 30:
         ctx.count("search_rounds")
         explore(ctx, 240, 60, p_degenerate=0.9, tag="x%d_" % rounds, with_model=False, p_coarse=0.5)
         rounds += 1
